@@ -88,6 +88,11 @@ CHECKS['C18'] = ('deviation-bounded space (<=3 of 11 slots incl. unknown-positio
                  'same residues, only numeric modifications, neutral mass preserved within (#shifts) x 0.5e-precision, '
                  'shifts exactly on the residues/termini modified in the explicit form, unmodified input unchanged',
                  'DESIGN.md section 4 / C18')
+CHECKS['C07'] = ('deviation-bounded space (<=3 of 10 slots) of modified proteins (14 quick / 41 thorough residue strings over '
+                 '{K,R,P,D,A}) x 6 protease rules x mc 0..3 x semi x 5 return types + the 4 semi-/non-enzymatic generators: '
+                 'every peptide = slice of the abstract protein (residue mods re-indexed, terminal mods only with their '
+                 'terminus, intervals, static/isotope carried), string == annotation, found at its offset, mass '
+                 'conservation of the zero-missed-cleavage peptides', 'DESIGN.md section 4 / C07')
 NOT_APPLICABLE = {}
 
 
